@@ -150,7 +150,7 @@ class Sender:
             return bytes([82, index[b]]) if b in index else orig(b, rng, True)
         termgen.enc_atom = enc_atom
         try:
-            return termgen.enc_value(v, self.rng, canonical=True, local=False)
+            return termgen.enc_value(v, self.rng, canonical=True, local=False, ids_any=self.rng.random() < 0.6)
         finally:
             termgen.enc_atom = orig
 
@@ -184,7 +184,9 @@ def gen_terms(rng, natoms=None):
     if els and rng.random() < 0.5:
         els.append(("p", atoms[0], 1, 2, 3, None))
     if els and rng.random() < 0.3:
-        els.append(("r", atoms[-1], 1, [1, 2], None))
+        els.append(("r", atoms[-1], 1, rng.choice([[1, 2], [7], [1, 2, 3]]), None))
+    if els and rng.random() < 0.3:
+        els.append(("o", atoms[len(atoms) // 2], rng.choice([5, 2**32 - 1, 2**40]), rng.choice([0, 3, 255, 256, 2**32 - 1]), None))
     if rng.random() < 0.4:
         els.append(no_maps(termgen.gen_term(rng, depth=1, big_ok=False)))
     rng.shuffle(els)
